@@ -611,7 +611,7 @@ def _chunk(cmd, lines, timeout):
     return res + _chunk(cmd, lines[len(res):], timeout)
 
 
-def run_crash(lines, workdir, limit_ms, timeout, retry=False):
+def run_crash(lines, workdir, limit_ms, timeout, retry=False, noretry=()):
     """-> (outputs, cost of each case in CPU microseconds)"""
     cmd = [lib.CVH, "crash", workdir, str(limit_ms)]
     n = len(lines)
@@ -627,9 +627,9 @@ def run_crash(lines, workdir, limit_ms, timeout, retry=False):
     # a case that hit the CPU limit is run again, alone, with six times the limit: what looks like a
     # hang at 30 s is often a slow recursion about to overflow the stack (or just a busy machine); the
     # second outcome is the one that is judged and that names the signature
-    slow = [i for i, o in enumerate(res) if o in ("abort rc=124", "timeout") and not retry]
+    slow = [i for i, o in enumerate(res) if o in ("abort rc=124", "timeout") and not retry and i not in noretry]
     if slow:
-        again, _ = run_crash([lines[i] for i in slow], workdir, limit_ms * 6, timeout * 6, retry=True)
+        again, _ = run_crash([lines[i] for i in slow], workdir, limit_ms * 3, timeout * 3, retry=True)
         for i, o in zip(slow, again):
             res[i] = o if o not in ("missing",) else res[i]
     outs, cost = [], []
@@ -647,7 +647,9 @@ def run_crash(lines, workdir, limit_ms, timeout, retry=False):
 def run_shuffled(rng, cs, workdir, limit_ms, timeout):
     order = list(range(len(cs.lines)))
     rng.shuffle(order)                      # spread the slow inputs over the worker processes
-    o_sh, c_sh = run_crash([cs.lines[i] for i in order], workdir, limit_ms, timeout)
+    # the hand-written divergence witnesses (stream hand-loop) are known to run into the limit: no second run
+    noretry = {k for k, i in enumerate(order) if cs.meta[i][1] == "hand-loop"}
+    o_sh, c_sh = run_crash([cs.lines[i] for i in order], workdir, limit_ms, timeout, noretry=noretry)
     outs = [None] * len(order)
     cost = [0] * len(order)
     for i, o, c in zip(order, o_sh, c_sh):
@@ -1055,7 +1057,7 @@ def repl_correspondence(chk, sessions, workdir, limit):
             seen.add(l)
             lines.append(l)
     mo = lib.run_model("replline", lines, timeout=1200)
-    io, _ = run_crash(["replt " + l for l in lines], workdir, limit, 1500)
+    io, _ = run_crash(["replt " + l for l in lines], workdir, min(limit, 10000), 1500, retry=True)   # (crashes/hangs were judged above)
     nbad = 0
     for l, a, b in zip(lines, mo, io):
         chk.note_case("replt " + l)
@@ -1216,26 +1218,38 @@ def run(chk):
             replay(chk, workdir, loc)
             return
         # modelled front end 1: the modern reader (model vs implementation on malformed streams)
+        import time as _t
+        t0 = _t.time()
+        ph = chk.cov.setdefault("phase_seconds", {})
         c14_reader.run_reader_part(chk)
+        ph["reader"] = round(_t.time() - t0, 1); t0 = _t.time()
         limit = 30000 if quick else 90000        # CPU ms per case (wall-clock backstop 15x)
         cs, src_texts, byte_texts, progs, ship = phase_a(chk, workdir)
+        ph["gen-a"] = round(_t.time() - t0, 1); t0 = _t.time()
         outs, cost = run_shuffled(rng, cs, workdir, limit, 1500 if quick else 6000)
+        ph["run-a"] = round(_t.time() - t0, 1); t0 = _t.time()
         judge(chk, cs, outs, loc)
+        ph["judge-a"] = round(_t.time() - t0, 1); t0 = _t.time()
         probe_cost = {}
         for (ep, stream, data), o, c in zip(cs.meta, outs, cost):
             if stream.startswith("probe:"):
                 probe_cost[data] = c if crash_sig(ep, data, o) is None else 10 ** 9
         cs2, src2 = phase_b(chk, workdir, progs, ship, probe_cost)
+        ph["gen-b"] = round(_t.time() - t0, 1); t0 = _t.time()
         outs2, cost2 = run_shuffled(rng, cs2, workdir, limit, 1500 if quick else 6000)
+        ph["run-b"] = round(_t.time() - t0, 1); t0 = _t.time()
         judge(chk, cs2, outs2, loc)
+        ph["judge-b"] = round(_t.time() - t0, 1); t0 = _t.time()
         chk.cov["crash_cases"] = len(cs.lines) + len(cs2.lines)
         chk.cov["crash_cpu_seconds"] = round((sum(cost) + sum(cost2)) / 1e6, 1)
         # the REPL line-assembly model against the real REPL
         repl_correspondence(chk, [d for (ep, _, d) in cs.meta + cs2.meta if ep == "repl"], workdir, limit)
+        ph["repl-corr"] = round(_t.time() - t0, 1); t0 = _t.time()
         # modelled front ends 2, 3: classic assembler and deserialiser
         src_texts += src2
         rng.shuffle(src_texts)
         model_agreement(chk, rng, quick, src_texts[: (5000 if quick else 80000)], byte_texts)
+        ph["model-agreement"] = round(_t.time() - t0, 1)
         for l in cs.lines[:3]:
             chk.sample({"line": l[:200], "meaning": "<entry point> <hex input> [<hex env>] -> ok|err|out|panic <file:line> <msg>"})
     finally:
